@@ -121,6 +121,35 @@ fn split(stream: &[u8], cuts: &[usize]) -> Vec<Vec<u8>> {
 
 const GREETING: &[u8] = b"OK MPD 0.23.5\n";
 
+thread_local! {
+    /// hook events of the receive loops (rx_wait / rx_read) plus one "o" event per returned call, in program order
+    static EVS: std::cell::RefCell<Vec<Value>> = const { std::cell::RefCell::new(Vec::new()) };
+}
+
+fn ev_out(t: &str) {
+    EVS.with(|e| e.borrow_mut().push(json!({"e": "o", "n": 0, "f": 0, "b": 0, "p": 0, "t": t})));
+}
+
+fn hooks_begin() {
+    EVS.with(|e| e.borrow_mut().clear());
+    #[cfg(mpd_client_verif)]
+    mpd_client::protocol::verif::set_sink(Some(Box::new(|ev, fields| {
+        let get = |k: &str| fields.iter().find(|(n, _)| *n == k).map(|(_, v)| *v).unwrap_or(0);
+        let v = match ev {
+            "rx_wait" => json!({"e": "w", "n": 0, "f": get("filled"), "b": get("blen"), "p": get("inprog"), "t": ""}),
+            "rx_read" => json!({"e": "r", "n": get("n"), "f": get("filled"), "b": get("blen"), "p": 0, "t": ""}),
+            _ => return,
+        };
+        EVS.with(|e| e.borrow_mut().push(v));
+    })));
+}
+
+fn hooks_end() -> Vec<Value> {
+    #[cfg(mpd_client_verif)]
+    mpd_client::protocol::verif::set_sink(None);
+    EVS.with(|e| std::mem::take(&mut *e.borrow_mut()))
+}
+
 fn run_receive_sync(chunks: Vec<Vec<u8>>, maxcalls: usize) -> (Vec<Value>, String, usize, bool) {
     let mut all = vec![GREETING.to_vec()];
     all.extend(chunks);
@@ -132,12 +161,14 @@ fn run_receive_sync(chunks: Vec<Vec<u8>>, maxcalls: usize) -> (Vec<Value>, Strin
     let mut out = vec![];
     let mut again = String::new();
     let mut terminal = false;
+    hooks_begin();
     for _ in 0..maxcalls {
         let r = catch_unwind(AssertUnwindSafe(|| conn.receive()));
         let (t, v) = match r {
             Ok(r) => outcome(r),
             Err(_) => ("PANIC".to_string(), json!({"frames": [], "err": []})),
         };
+        ev_out(&t);
         if terminal {
             again = t;
             break;
@@ -168,12 +199,14 @@ fn run_receive_async(chunks: Vec<Vec<u8>>, maxcalls: usize, pend: bool) -> (Vec<
     let mut out = vec![];
     let mut again = String::new();
     let mut terminal = false;
+    hooks_begin();
     for _ in 0..maxcalls {
         let r = catch_unwind(AssertUnwindSafe(|| rt.block_on(conn.receive())));
         let (t, v) = match r {
             Ok(r) => outcome(r),
             Err(_) => ("PANIC".to_string(), json!({"frames": [], "err": []})),
         };
+        ev_out(&t);
         if terminal {
             again = t;
             break;
@@ -232,6 +265,7 @@ pub fn run_case(c: &Value) -> Value {
     }
     let maxcalls = 12 + stream.iter().filter(|&&b| b == b'\n').count();
     let (out, again, reads, hang) = if flavour == "sync" { run_receive_sync(chunks, maxcalls) } else { run_receive_async(chunks, maxcalls, pend) };
+    let evs = hooks_end();
     if big {
         // large streams: the record carries a digest of the outcomes instead of the bytes (compared across
         // segmentations and flavours by TLC; the byte-exact reference check is done on the small streams)
@@ -242,7 +276,8 @@ pub fn run_case(c: &Value) -> Value {
                       "again": again, "nreads": reads - 1, "nchunks": nchunks, "hang": hang, "exp_nresp": c["exp_nresp"], "exp_last": c["exp_last"], "exp_digest": c["exp_digest"]});
     }
     json!({"e": "case", "id": c["id"], "stream": stream, "flavour": flavour, "out": out, "again": again, "nreads": reads.saturating_sub(1), "nchunks": nchunks, "hang": hang,
-           "abs": c.get("abs").cloned().unwrap_or(json!([])), "has_abs": c.get("abs").is_some(), "wellformed_cut": c["wellformed_cut"].as_bool().unwrap_or(false)})
+           "abs": c.get("abs").cloned().unwrap_or(json!([])), "has_abs": c.get("abs").is_some(), "wellformed_cut": c["wellformed_cut"].as_bool().unwrap_or(false),
+           "hooked": cfg!(mpd_client_verif) && evs.iter().any(|e| e["e"] != "o"), "ev": if c["hooks"].as_bool().unwrap_or(false) { json!(evs) } else { json!([]) }})
 }
 
 /// Canonical byte form of the responses in `out` (twin of lib/wiregen.py::big_stream's `canon`).
